@@ -106,6 +106,19 @@ def make_overlay(workdir, instrument=(), extra=None, patches=None):
             elif p.returncode != 0:
                 raise RuntimeError("rewrite failed for %s:\n%s" % (rel, p.stdout))
             repl[src] = dst
+    for patch in patches or ():
+        if patch == "prime-hook":
+            src = os.path.join(REPO, "pkg/math/sample/prime.go")
+            txt = open(src).read()
+            m = re.search(r"func Paillier\(rand io\.Reader, pl \*pool\.Pool\) \(p, q \*saferith\.Nat\) \{\n", txt)
+            if not m:
+                notes.append("prime-hook: signature of sample.Paillier not found; running without pre-generated primes (slow)")
+                continue
+            txt = txt[:m.end()] + "\tif hp, hq, ok := verifPaillierHook(); ok {\n\t\treturn hp, hq\n\t}\n" + txt[m.end():]
+            dst = os.path.join(workdir, "instr", "pkg/math/sample/prime.go")
+            os.makedirs(os.path.dirname(dst), exist_ok=True)
+            open(dst, "w").write(txt)
+            repl[src] = dst
     if extra:
         repl.update(extra)
     ov = os.path.join(workdir, "overlay.json")
@@ -156,7 +169,7 @@ def run_check(prop, tier, seed, budget=None, only=None, keep=False, quiet=False,
     shutil.rmtree(workdir, ignore_errors=True)
     os.makedirs(workdir)
     try:
-        ov, notes, fallback = make_overlay(workdir, cfg.get("instrument", ()))
+        ov, notes, fallback = make_overlay(workdir, cfg.get("instrument", ()), patches=cfg.get("patches"))
         binary, bt = go_build(workdir, ov, cfg["cmd"])
         shards = cfg.get("shards", 1)
         if callable(shards):
@@ -188,7 +201,7 @@ def run_check(prop, tier, seed, budget=None, only=None, keep=False, quiet=False,
             results.append(json.load(open(out)))
         race_report = None
         if cfg.get("race") and not hard:
-            rb, _ = go_build(workdir, ov_plain(workdir), cfg["cmd"], race=True)
+            rb, _ = go_build(workdir, ov_plain(workdir, cfg.get("patches")), cfg["cmd"], race=True)
             out = os.path.join(workdir, "race.json")
             p = sh(["bash", "-c", 'exec "$@"', "x", rb, "-mode", "race", "-tier", tier, "-seed", str(seed), "-out", out], cwd=workdir, check=False,
                    env=dict(ENV, GORACE="halt_on_error=0 exitcode=0"))
@@ -224,11 +237,11 @@ def parse_races(text):
     return out
 
 
-def ov_plain(workdir):
+def ov_plain(workdir, patches=None):
     """overlay without instrumentation (free-running race pass uses the real files)"""
     d = os.path.join(workdir, "plain")
     os.makedirs(d, exist_ok=True)
-    ov, _, _ = make_overlay(d, ())
+    ov, _, _ = make_overlay(d, (), patches=patches)
     return ov
 
 
@@ -361,10 +374,10 @@ def cmd_setup():
         if key in seen:
             continue
         seen.add(key)
-        ov, _, _ = make_overlay(workdir, cfg.get("instrument", ()))
+        ov, _, _ = make_overlay(workdir, cfg.get("instrument", ()), patches=cfg.get("patches"))
         go_build(workdir, ov, cfg["cmd"])
         if cfg.get("race"):
-            go_build(workdir, ov_plain(workdir), cfg["cmd"], race=True)
+            go_build(workdir, ov_plain(workdir, cfg.get("patches")), cfg["cmd"], race=True)
     shutil.rmtree(workdir, ignore_errors=True)
     print("setup ok (%.0fs)" % (time.time() - t0))
     return 0
@@ -378,7 +391,7 @@ def cmd_replay(path):
     shutil.rmtree(workdir, ignore_errors=True)
     os.makedirs(workdir)
     try:
-        ov, _, _ = make_overlay(workdir, cfg.get("instrument", ()))
+        ov, _, _ = make_overlay(workdir, cfg.get("instrument", ()), patches=cfg.get("patches"))
         binary, _ = go_build(workdir, ov, cfg["cmd"])
         p = subprocess.run([binary, "-replay", os.path.abspath(path), "-tier", d.get("tier", "quick"), "-seed", str(d.get("seed", 1))] + cfg.get("args", []), env=ENV)
         return p.returncode
